@@ -5,8 +5,10 @@ import (
 	"encoding/json"
 	"fmt"
 	"os"
+	"runtime/debug"
 	"sort"
 	"strings"
+	"time"
 
 	"verif/harness/wire"
 )
@@ -450,9 +452,39 @@ func NewCaseWith(base string, cfg CaseCfg, build func(base string, nm *NameMap) 
 	return c, nil
 }
 
+// FdLeaks: files under an exported root that the server still had open after its only connection was gone (C11: the
+// Unix file server closes every file it opened for that connection).
+var FdLeaks []string
+
+// openUnder lists the descriptors of this process that designate something under root; it polls until there is none or the
+// (real) time is up: the teardown of a connection runs in the server's own goroutines.
+func openUnder(root string, wait time.Duration) []string {
+	deadline := time.Now().Add(wait)
+	for {
+		var open []string
+		ents, _ := os.ReadDir("/proc/self/fd")
+		for _, e := range ents {
+			if t, err := os.Readlink("/proc/self/fd/" + e.Name()); err == nil && (t == root || strings.HasPrefix(t, root+"/")) {
+				open = append(open, strings.TrimPrefix(t, root))
+			}
+		}
+		if len(open) == 0 || time.Now().After(deadline) {
+			return open
+		}
+		time.Sleep(5 * time.Millisecond)
+	}
+}
+
 func (c *Case) Close() {
+	// (an *os.File that has become unreachable is closed by the garbage collector sooner or later: keep it from running
+	// while the server's own teardown is given the time to close what it opened)
+	gc := debug.SetGCPercent(-1)
+	defer debug.SetGCPercent(gc)
 	c.N.S.Close()
 	c.T.CloseAll()
+	if open := openUnder(c.A.Root, 1500*time.Millisecond); len(open) > 0 && len(FdLeaks) < 20 {
+		FdLeaks = append(FdLeaks, fmt.Sprintf("%d file(s) of the exported tree still open after the client disconnected: %v (steps so far %d)", len(open), open, c.Steps))
+	}
 	_ = os.RemoveAll(c.Base)
 }
 
